@@ -180,7 +180,8 @@ def gen_tl(rnd, idx):
     text = "predicate I0(real x) : Interval { duration >= 1.0; }\npredicate M0(real y) : Impulse { }\n"
     text += "predicate G0() : Interval { goal i = new I0(x:2.0); goal m = new M0(y:1.0); i.start >= start; m.at >= i.end; }\n"
     text += "class Ag : Agent { predicate Act(real k) : Interval { duration >= 2.0; } predicate Sig() : Impulse { } predicate Carry() : Act { } predicate Alarm() : Sig { } predicate Survey() : Interval { fact b = new Sig(at:start); duration >= 4.0; end >= 5.0; } }\nAg ag = new Ag();\n"
-    text += "predicate I1(real z) : I0 { }\npredicate M1() : M0 { }\n"       # temporal only through another predicate
+    text += "predicate I1(real z) : I0 { }\npredicate M1() : M0 { }\n"
+    text += "class Tool { }\npredicate Build() : Interval { goal c = new I0(x:1.0); Tool t; goal d = new M0(y:2.0); d.at >= c.end; }\n"     # no Tool exists: the rule cannot be applied       # temporal only through another predicate
     text += "class SV : StateVariable { predicate S() { duration >= 1.0; } }\nSV sv = new SV();\n"
     text += "ReusableResource rr = new ReusableResource(5.0);\n"
     # predicates declared inside a plain (non smart) class, in a class derived from one, in a class derived from a smart type; empty rule bodies;
@@ -202,7 +203,9 @@ def gen_tl(rnd, idx):
         if c < 0.45 and rnd.random() < 0.5:
             what = rnd.choice(["cam.Rec(q:2.0)", "cam.Shot()", "cam.Idle()", "cam.Ses()", "cam2.Pan(a:1.0)", "cam2.Rec(q:3.0)", "cam2.Shot()", "ag2.Wave()", "ag2.Blink()", "ag2.Act(k:2.0)",
                                "sv2.E()", "E0()", "bat.Drain(amount:1.0)", "bat.Charge(amount:2.0)",
-                               "ag.Carry(k:1.0)", "ag.Alarm()", "ag.Carry(k:2.0)", "ag.Alarm()", "I1(x:1.0, z:2.0)", "M1(y:3.0)", "ag.Survey()", "ag.Survey()", "ag.Sig(at:%d.0)" % rnd.randint(0, 4)])
+                               "ag.Carry(k:1.0)", "ag.Alarm()", "ag.Carry(k:2.0)", "ag.Alarm()", "I1(x:1.0, z:2.0)", "M1(y:3.0)", "ag.Survey()", "ag.Survey()", "ag.Sig(at:%d.0)" % rnd.randint(0, 4), "Build()"])
+            if "Build" in what:
+                kind = "goal"
             if "Survey" in what:
                 kind = "goal"
                 # an impulse the rule's own fact could be unified with, and (often) a deadline the rule forbids: a solver that ties the rest of the
@@ -250,7 +253,8 @@ def gen_tl(rnd, idx):
     # constraints the rules of some predicates put on the atom's own parameters (checked on every active goal of that predicate)
     rule_table = {"Ag:Survey": [("geq", ("id", ["duration"]), num(4)), ("geq", ("id", ["end"]), num(5))], "Ag:Act": [("geq", ("id", ["duration"]), num(2))],
                   "I0": [("geq", ("id", ["duration"]), num(1))], "Cam:Ses": [("geq", ("id", ["duration"]), num(3))]}
-    return {"family": "tl", "id": "tl-%d" % idx, "text": text + "\n".join(stmts) + "\n", "planted": False, "rule_table": rule_table}
+    return {"family": "tl", "id": "tl-%d" % idx, "text": text + "\n".join(stmts) + "\n", "planted": False, "rule_table": rule_table,
+            "subgoal_table": {"Build": ["I0", "M0"], "G0": ["I0", "M0"], "Ses": ["Rec", "Shot"], "Survey": ["Sig"]}}
 
 
 def gen_rules(rnd, idx):
@@ -412,6 +416,20 @@ def gen_cyc(rnd, idx):
     """domains in which goals can only be *justified* through a base case but could 'support each other' in a circle (being somewhere needs a move,
     a move needs being somewhere else): an independent, cheaper choice first removes the base case, so the circular unifications are what
     propagation suggests; the only plans open the base case.  Solvable by construction (base case reachable)."""
+    if rnd.random() < 0.4:
+        # a goal whose rule leads, through a disjunction, either back to a goal of its own predicate (which could be unified with the very goal it
+        # descends from) or to a base case that a separate choice may rule out
+        P, Q, B = rnd.choice([("P", "Q", "Base"), ("Need", "Via", "Ground"), ("Open", "Step", "Root")])
+        lim = rnd.choice([0, 0.5])
+        first_rec = rnd.random() < 0.6
+        rec = "{\n        goal p = new %s();\n    }" % P
+        base = "{\n        fact b = new %s();\n        n >= 1;\n    }" % B
+        text = "real x;\n\npredicate %s() {\n}\n\npredicate %s(real n) {\n    goal q = new %s(n:n);\n}\n\n" % (B, P, Q)
+        text += "predicate %s(real n) {\n    %s or %s\n}\n\n" % (Q, rec if first_rec else base, base if first_rec else rec)
+        c = rnd.randint(1, 5)
+        stmts = ["{\n    x <= 0;\n} [%d] or {\n    x <= %s;\n} [%d]" % (c, lim, c), "goal g = new %s(n:x);" % P]
+        rnd.shuffle(stmts)
+        return {"family": "cyc", "id": "cyc-%d" % idx, "text": text + "\n".join(stmts) + "\n", "planted": False}
     nl = rnd.randint(2, 3)
     locs = rnd.sample([1, 2, 3, 4, 6], nl)
     P, M, C = rnd.choice([("At", "Move", "Configure"), ("In", "Go", "Setup"), ("Has", "Fetch", "Prepare")])
@@ -508,7 +526,14 @@ def gen_task(rnd, idx):
     d = rnd.randint(1, 3)
     k = rnd.randint(2, 5)
     names = ["crane", "hoist"][:nres]
-    text = "".join("ReusableResource %s = new ReusableResource(%d.0);\n" % (n, cap) for n in names)
+    # sometimes the capacity is not a constant: part of it is set aside by a decision taken during the search (both alternatives leave `cap`)
+    derate = rnd.random() < 0.3
+    if derate:
+        extra = rnd.randint(1, 4)
+        text = "real reserve;\nreserve >= 0.0;\nreserve <= %d.0;\n" % (extra + 1)
+        text += "".join("ReusableResource %s = new ReusableResource(%d.0 - reserve);\n" % (n, cap + extra) for n in names)
+    else:
+        text = "".join("ReusableResource %s = new ReusableResource(%d.0);\n" % (n, cap) for n in names)
     use_sv = rnd.random() < 0.4
     if use_sv:
         text += "class Dock : StateVariable {\n    predicate Busy(real w) { duration >= 1.0; }\n}\nDock dock = new Dock();\n"
@@ -534,7 +559,9 @@ def gen_task(rnd, idx):
     rounds = -(-k // par_total)
     H = rounds * d + rnd.choice([0, 0, 1, 3])
     stmts.append("horizon <= %d.0;" % H)
+    if derate:
+        stmts.append("{ reserve >= %d.0; } or { reserve == %d.0; }" % (extra, extra))
     rnd.shuffle(stmts)
     if rnd.random() < 0.3 and k >= 2:
         stmts.append("l0.end <= l1.start;" if rounds >= 2 else "l0.start <= l1.start;")
-    return {"family": "task", "id": "task-%d" % idx, "text": text + "\n".join(stmts) + "\n", "planted": True}
+    return {"family": "task", "id": "task-%d" % idx, "text": text + "\n".join(stmts) + "\n", "planted": True, "derate": derate}
